@@ -160,8 +160,7 @@ def grep_gate():
     return bad
 
 
-def dep_closure(pid):
-    """the .v files Props/<pid>.v depends on (through coqdep)"""
+def dep_graph():
     rc, out, _ = sh("coqdep -f _CoqProject 2>/dev/null", cwd=COQ)
     deps = {}
     for line in out.splitlines():
@@ -171,7 +170,11 @@ def dep_closure(pid):
         tgt = lhs.split()[0]
         if tgt.endswith(".vo"):
             deps[tgt[:-1]] = [d[:-1] for d in rhs.split() if d.endswith(".vo")]
-    seen, todo = [], [f"Props/{pid}.v"]
+    return deps
+
+
+def closure(deps, roots):
+    seen, todo = [], list(roots)
     while todo:
         f = todo.pop()
         if f in seen:
@@ -179,6 +182,11 @@ def dep_closure(pid):
         seen.append(f)
         todo.extend(deps.get(f, []))
     return seen
+
+
+def dep_closure(pid):
+    """the .v files Props/<pid>.v depends on (through coqdep)"""
+    return closure(dep_graph(), [f"Props/{pid}.v"])
 
 
 def count_obligations(files):
@@ -199,7 +207,10 @@ def build_props(pid, timeout=3000):
         info["translator_errors"] = run_translators()
         ensure_makefile()
         info["gate"] = grep_gate()
-        cmd = f"timeout {timeout} make -j16 Props/{pid}.vo"
+        targets = f"Props/{pid}.vo"
+        if os.path.exists(os.path.join(COQ, "Corr", f"Corr{pid}.v")):
+            targets += f" Corr/Corr{pid}.vo"
+        cmd = f"timeout {timeout} make -j16 {targets}"
         info["checker_cmd"] = f"cd {COQ} && coq_makefile -f _CoqProject -o Makefile && {cmd} && coqc -R . PUN Props/{pid}.v"
         rc, out, _ = sh(cmd, timeout=timeout + 60, cwd=COQ)
         files = dep_closure(pid)
@@ -207,12 +218,13 @@ def build_props(pid, timeout=3000):
         info["obligations"] = count_obligations(files)
         if rc != 0:
             info["log_tail"] = out[-3000:]
-            # discharged: obligations in files whose .vo is up to date
-            done = [f for f in files if os.path.exists(os.path.join(COQ, f + "o"))
-                    and os.path.getmtime(os.path.join(COQ, f + "o")) >= os.path.getmtime(os.path.join(COQ, f))]
-            info["discharged"] = count_obligations(done)
             m = re.search(r'File "\./([^"]+)", line (\d+)', out)
             info["failed_at"] = f"{m.group(1)}:{m.group(2)}" if m else "unknown"
+            # discharged: obligations of the files that do not depend on the failing file
+            deps = dep_graph()
+            failing = m.group(1) if m else None
+            done = [f for f in files if failing is not None and failing not in closure(deps, [f])]
+            info["discharged"] = count_obligations(done)
             return info
         # re-run the property file alone to capture Print Assumptions
         rc, out, _ = sh(f"timeout 600 coqc -R . PUN -w -notation-overridden Props/{pid}.v", cwd=COQ, timeout=660)
@@ -287,7 +299,7 @@ def run_coq_cases(pid, chunks, requires, timeout=900, jobs=8):
     offset = 0
     for k, (name, ncases) in enumerate(names):
         rc, out = outs[k]
-        flat = " ".join(out.split())
+        flat = " ".join(out.split()).replace("%nat", "")
         m = re.search(r"= \((\d+), (\d+), \[(.*?)\]\)", flat)
         if rc != 0 or not m:
             log += f"\n[{name}] rc={rc}\n{out[-1500:]}"
